@@ -147,6 +147,7 @@ def mpas_dataset(m, rng, supply_distances=None, dual=False, force=None):
         "distances": bool(rng.random() < 0.5) if supply_distances is None else bool(supply_distances),
         "dual": bool(dual),
         "index_dtype": _pick(rng, ["int32", "int32", "int64"]),
+        "padded_attrs": bool(rng.random() < 0.5),
     }
     if force:
         d.update(force)
@@ -207,7 +208,9 @@ def mpas_dataset(m, rng, supply_distances=None, dual=False, force=None):
         x = np.deg2rad(np.asarray(x, dtype=float))
         return np.mod(x, 2 * np.pi) if d["lon"] == "0..2pi" else x
 
-    ds = xr.Dataset(attrs={"on_a_sphere": "YES", "sphere_radius": R, "is_periodic": "NO", "Conventions": "MPAS", "mesh_spec": "1.0"})
+    # MPAS cores write their global string attributes blank-padded (Fortran character variables)
+    pad = (lambda t: t.ljust(16)) if d.get("padded_attrs") else (lambda t: t)
+    ds = xr.Dataset(attrs={"on_a_sphere": pad("YES"), "sphere_radius": R, "is_periodic": pad("NO"), "Conventions": "MPAS", "mesh_spec": pad("1.0"), "model_name": pad("  mpas")})
     ds["latCell"] = xr.DataArray(np.deg2rad(clat), dims=["nCells"])
     ds["lonCell"] = xr.DataArray(rl(clon), dims=["nCells"])
     ds["latVertex"] = xr.DataArray(np.deg2rad(lat), dims=["nVertices"])
